@@ -582,6 +582,7 @@ HX void hx_split_any(uint64_t len, uint64_t) {
 HX void hx_pa_env(uint64_t cfg, uint64_t mode) {
    Tmpl t; parse(t);
    Dest d;
+   pa_opt = (unsigned) (mode >> 8);
    Handler ah(Handler::hfEnvVarArgs);
    setup(ah, d, (int) cfg, 0);
    // words before the marker word "\x02" are delivered through the environment variable PROG, the rest on argv
@@ -590,6 +591,7 @@ HX void hx_pa_env(uint64_t cfg, uint64_t mode) {
       if (w == "\x02") { in_env = false; continue; }
       if (in_env) { if (!env.empty()) env += ' '; env += w; } else cmd.push_back(w);
    }
+   if (mode & 1) env = " " + env;            // the value of the variable begins with a blank
    vs_setenv("PROG", env.c_str());
    Argv av(cmd);
    int rc = guarded([&] { ah.evalArguments(av.argc(), av.argv()); });
@@ -617,6 +619,7 @@ HX void hx_pa_env_name(uint64_t namelen, uint64_t slashes) {
 HX void hx_pa_file(uint64_t cfg, uint64_t mode) {
    Tmpl t; parse(t);
    Dest d;
+   pa_opt = (unsigned) (mode >> 8);
    Handler ah(Handler::hfReadProgArg);
    setup(ah, d, (int) cfg, 0);
    std::string content = (mode & 2) ? "# a comment line\n\n" : ""; std::vector<std::string> cmd; bool in_file = true, line_open = false;
@@ -768,6 +771,7 @@ HX void hx_pa_file_env(uint64_t cfg, uint64_t mode) {
 HX void hx_pa_argfile(uint64_t cfg, uint64_t mode) {
    Tmpl t; parse(t);
    Dest d;
+   pa_opt = (unsigned) (mode >> 8);
    Handler ah(0);
    setup(ah, d, (int) cfg, 0);
    ah.addArgumentFile("arg-file");
@@ -797,4 +801,30 @@ HX void hx_pa_help(uint64_t full, uint64_t) {
    Argv av(t.words);
    int rc = guarded([&] { ah.evalArguments(av.argc(), av.argv()); });
    judge(t, rc, d);
+}
+
+// C05: a key designates at most one argument of a handler - also when one of the two arguments opens a sub-group.
+// mode: 0 second sub-group "o,other", 1 second sub-group "x,output", 2 plain "o" after the sub-group "o,output", 3 plain "output",
+// 4 plain "x,output", 5 sub-group "q,quiet" after the plain "q", 6 sub-group "quiet" after plain "q,quiet", 7/8 distinct keys (accepted)
+HX void hx_pa_subgroup_dup(uint64_t mode, uint64_t) {
+   Handler master(0), s1(0), s2(0); int a = 0, b = 0, x = 0;
+   s1.addArgument("f,file", DEST_VAR(a), "file"); s2.addArgument("f,file", DEST_VAR(b), "file");
+   int rc = guarded([&] {
+      if (mode == 5) master.addArgument("q", DEST_VAR(x), "plain");
+      if (mode == 6) master.addArgument("q,quiet", DEST_VAR(x), "plain");
+      master.addArgument("o,output", s1, "output arguments");
+      switch (mode) {
+      case 0: master.addArgument("o,other", s2, "second sub-group"); break;
+      case 1: master.addArgument("x,output", s2, "second sub-group"); break;
+      case 2: master.addArgument("o", DEST_VAR(x), "plain"); break;
+      case 3: master.addArgument("output", DEST_VAR(x), "plain"); break;
+      case 4: master.addArgument("x,output", DEST_VAR(x), "plain"); break;
+      case 5: master.addArgument("q,quiet", s2, "second sub-group"); break;
+      case 6: master.addArgument("quiet", s2, "second sub-group"); break;
+      case 7: master.addArgument("i,input", s2, "second sub-group"); break;
+      default: master.addArgument("x,extra", DEST_VAR(x), "plain"); break;
+      }
+   });
+   vs_assert(rc != 2, "only std::exception");
+   vs_assert((rc == 1) == (mode <= 6), "a key that is taken by another argument of the handler (plain or sub-group) is refused, other keys are accepted");
 }
